@@ -41,7 +41,7 @@ def bounds(tier, seed):
         "registers": ["pair (special-cased 2-site stepping)", "bent3"] + (["zig4"] if tier == "thorough" else []),
         "drives": ["dmm (per-atom)", "local"],
         "ordering": "off; on with every non-identity p in S_3 (S_4 generators for zig4)",
-        "crash_points": "every progress() call of the run; double crash (k, k+2) for every k",
+        "crash_points": "every progress() call of the run; double crash (k, then 2 calls later) for every k; thorough: double crashes at distances 0, 1, 3 as well",
         "time_steps": 3,
     }
 
@@ -68,7 +68,7 @@ def cases(tier, seed):
                 for p in perms:
                     if path != "tdvp" and p not in (None, perms[1]):
                         continue
-                    yield {"path": path, "shape": shape, "kind": kind, "perm": p}
+                    yield {"path": path, "shape": shape, "kind": kind, "perm": p, "tier": tier}
 
 
 def _setup(case):
@@ -156,6 +156,8 @@ def run_case(case):
         if leftovers:
             return result(False, sig="leftover-file|uninterrupted", msg=f"{label}: files left after an uninterrupted run: {leftovers}", outcome="left")
         plans = [(k,) for k in range(total)] + [(k, 2) for k in range(0, max(total - 3, 0))]
+        if case.get("tier") == "thorough":
+            plans += [(k, j) for k in range(0, max(total - 2, 0)) for j in (0, 1, 3) if k + j + 1 < total]
         for plan in plans:
             k = plan[0]
             s1 = A.Session(wd, save_calls=[k], crash_after_save_call=k, rng=rng(), optimiser=case["perm"], np_script=_np_script(case))
